@@ -14,6 +14,8 @@ EQ = C01.EQ
 def obligations(tier):
     obs = []
     for o in C01.obligations(tier):
+        if o.fn != "run":
+            continue
         P = dict(o.params)
         P.pop("sched", None)
         obs.append(Ob(o.name, P, EQ, weight=o.weight, budget_s=o.budget_s, max_paths=o.max_paths))
